@@ -94,6 +94,14 @@ def decFRow (v : V) : Option (FRow Nat) :=
   | .list [i, r] => do let i ← i.nat?; let r ← decRow r; pure ⟨r, i⟩
   | _ => none
 def encFRow (r : FRow Nat) : V := .list [encNat r.payload, encRow r.s]
+def decEdgeRow (v : V) : Option EdgeRow :=
+  match v with
+  | .list [a, b, c, d, e, f, g, h] => do
+      let a ← a.rat?; let b ← b.rat?; let c ← c.rat?; let d ← d.orat?; let e ← e.orat?; let f ← f.fval?; let g ← g.fval?; let h ← h.bool?
+      pure ⟨a, b, c, d, e, f, g, h⟩
+  | _ => none
+def encEdgeOut (r : EdgeRow) : V := .list [encF r.ampCons, encF r.perCons, encBool r.isBurst]
+
 def handle (args : List V) : V :=
   match args with
   | [.atom "ping"] => .atom "pong"
@@ -320,6 +328,19 @@ def handle (args : List V) : V :=
     match times.listOf? V.rat?, a.opt? V.rat?, b.opt? V.rat? with
     | some t, some a, some b => encList encNat (limitSignalSpec t a b)
     | _, _, _ => bad "limitsig.spec"
+  -- C16
+  | [.atom "edges.model", pc, rows, th] =>
+    match pc.bool?, rows.listOf? decEdgeRow, decCycThresh th with
+    | some pc, some rows, some th => encExcept (encList encEdgeOut) (recomputeEdges pc rows th)
+    | _, _, _ => bad "edges.model"
+  | [.atom "edges.spec", pc, rows, th] =>
+    match pc.bool?, rows.listOf? decEdgeRow, decCycThresh th with
+    | some pc, some rows, some th =>
+      let ed := editedSpec pc rows
+      match cyclesSpecFull (ed.map (·.toCyc)) th with
+      | .ok labels => .list [.atom "ok", encList encEdgeOut ((ed.zip labels).map fun (r, l) => { r with isBurst := l })]
+      | .error e => encErr e
+    | _, _, _ => bad "edges.spec"
   | _ => bad "unknown-command"
 
 partial def loop (hin : IO.FS.Stream) (hout : IO.FS.Stream) : IO Unit := do
